@@ -76,6 +76,12 @@ W['C13/static_forwarder'] = one(module(defs=[
     T('Base', [], [F('a', u32)]),
     T('Derived', [], [F('b', ty_id('Base'), [a_ident('base')])])],
     impls=[impl('Base', [], [fn(True, 'create', [a_int('address', 4096)], [arg('n', u32)], ty_mptr(ty_id('Base')))])]), 'static-forwarder', ps=8)
+# a public `_`-named function of two bases: the second one is renamed b__tick and used to call the never-emitted self.b._tick()
+W['C13/internal_forwarder'] = one(module(defs=[
+    T('A', [], [F('x', u32)]), T('B', [], [F('y', u32)]),
+    T('D', [], [F('a', ty_id('A'), [a_ident('base')]), F('b', ty_id('B'), [a_ident('base')])])],
+    impls=[impl('A', [], [af('_tick', 4096)]), impl('B', [], [af('_tick', 8192)])]), 'internal-forwarder', ps=8)
+W['C07/underscore_base_fn'] = W['C13/internal_forwarder']
 W['C13/rename_clash'] = one(module(defs=[
     T('A', [], [F('x', u32)]), T('B', [], [F('y', u32)]),
     T('D', [], [F('a', ty_id('A'), [a_ident('base')]), F('b', ty_id('B'), [a_ident('base')])])],
